@@ -157,6 +157,17 @@ def lattice_c04(ctx):
     g2 = np.linspace(math.log(0.2), math.log(2.0), 161)
     insts.append(('min y0+y1-.3y0y1 s.t. y>=.2, y0^2+y1^2<=4', f2, gts2, [], [np.array([a, b]) for a in g2 for b in g2],
                   [(0, 1, 0), (1, 1, 0), (0, 2, 0), (0, 1, 1)]))
+    # an equation, in both orientations (the multiplier of an equation is free: h == 0 and -h == 0 are the same problem); the grid lies on
+    # the manifold y0 y1 = 1
+    man = [np.array([t, -t]) for t in np.linspace(-1.5, 1.5, 3001)]
+    fe = y2[0] + 2 * y2[1] + 0.5 * y2[0] ** 2
+    for nm, h in (('1 - y0 y1 == 0', 1 - y2[0] * y2[1]), ('y0 y1 - 1 == 0', y2[0] * y2[1] - 1)):
+        insts.append(('min y0+2y1+.5y0^2 s.t. %s, y <= 5' % nm, fe, [5 - y2[0], 5 - y2[1]], [h], man, [(0, 1, 0), (1, 1, 0)]))
+    # exponents that are not binary fractions (0.1, 0.3, 0.6): sums of exponent rows computed in floating point need not be bit-identical
+    # to the rounded rows of the Lagrangian
+    fd = y[0] ** 0.6 + y[0] ** -0.3
+    insts.append(('min e^{.6x} + e^{-.3x} s.t. e^{.3x} >= 1.2, e^{.1x} <= 1.3', fd, [y[0] ** 0.3 - 1.2, 1.3 - y[0] ** 0.1], [],
+                  [np.array([t]) for t in np.linspace(0.0, 3.0, 6001)], [(0, 1, 0), (1, 1, 0), (1, 2, 0)]))
     nsolves = 0
     for name, f, gts, eqs, pts, levels in insts:
         feas = [x for x in pts if all(float(g(x)) >= 0 for g in gts)]
